@@ -1,6 +1,6 @@
 (* Abstract syntax of Bardolph scripts: the statement forms of docs/language.rst. *)
 From Coq Require Import ZArith String List Bool PrimFloat.
-From Bardolph Require Import Gen.Codes Time.TimeSpec Time.TimePattern Lang.Value.
+From Bardolph Require Import Gen.Codes Time.TimeSpec Time.TimeCore Lang.Value.
 Open Scope string_scope.
 Open Scope list_scope.
 Import ListNotations.
